@@ -223,6 +223,7 @@ static gf of_gf_mul_table[GF_SIZE + 1][GF_SIZE + 1];
 #define GF_ADDMULC_COMPACT(dst,x) { GF_ADDMULC(dst, x);}
 #endif
 
+#if !(defined(OPENFEC_VERIF) && defined(OPENFEC_VERIF_GF28_TABLES))
 static void
 of_rs_init_mul_table()
 {
@@ -236,6 +237,7 @@ of_rs_init_mul_table()
 		of_gf_mul_table[0][j] = of_gf_mul_table[j][0] = 0;
 	OF_EXIT_FUNCTION
 }
+#endif /* verification builds: tables are preloaded constants, nothing to fill */
 #else	/* GF_BITS > 8 */
 static inline gf
 of_gf_mul (x, y)
@@ -288,6 +290,7 @@ of_my_malloc (INT32 sz, const char *err_string)
 /*
  * initialize the data structures used for computations in GF.
  */
+#if !(defined(OPENFEC_VERIF) && defined(OPENFEC_VERIF_GF28_TABLES))
 static void
 of_generate_gf (void)
 {
@@ -354,6 +357,7 @@ of_generate_gf (void)
 		of_rs_inverse[i] = of_rs_gf_exp[GF_SIZE-of_rs_gf_log[i]];
 	OF_EXIT_FUNCTION
 }
+#endif /* verification builds: tables are preloaded constants, nothing to generate */
 
 /*
  * Various linear algebra operations that I often use.
